@@ -559,6 +559,21 @@ def _with_hidden_state(pid, fn):
             state.check_hidden_state(ctx, rep, roots=roots)
             rep.extra['hidden_state_scope'] = len(state.reachable_functions(ctx, roots))
             rep.clauses_decided.append('no cross-call memo (module-level container, memoising decorator, mutable default) is reachable from the operations of this property (R-STATE c on the call-graph closure)')
+        # identity-bearing encodings (names of composite states, __eq__, look-up keys) and the input word, on the same closure
+        from .rules import inj
+        scope = state.reachable_functions(ctx, _roots_of(ctx, rep))
+        inj.check_scope(ctx, rep, scope)
+        from .rules import sorts
+        sfuncs = []
+        for f0 in scope.values():
+            st = [f0]
+            while st:
+                g0 = st.pop()
+                sfuncs.append(g0)
+                st.extend(g0.nested.values())
+        sorts.check_sorts(ctx, rep, sfuncs)
+        rep.clauses_decided.append('the declared sorts State / Symbol / Direction (NewTypes of the repository) are respected in memberships, comparisons, set algebra, mapping keys and arguments inside the operations of this property (R-SORT)')
+        rep.clauses_decided.append('encodings that carry identity inside the operations of this property are injective: names of composite states, __eq__ of the value classes, look-up keys built from printed forms; the input word is consumed unmodified (R-INJ on the call-graph closure)')
     return wrapped
 
 
